@@ -1,119 +1,171 @@
-(* C13: the comparators with closure state (ByContextualEx, ByDate).
-   - refuted: the full statement (every arrangement sorts to the same sequence) fails on mixed key sets;
-   - partial: on key sets inside one sort set / one date layout / with no member at all the closure
-     decides like a pure strict total order, whatever it was asked before;
-   - the pure order on the sort sets is calendar position (tables from the translator). *)
+(* C13: contextual and date.
+   - ByContextualEx after the repairs (C13-contextual-ties, C13-stateful-comparators) is a plain
+     function of the two keys, [ctx_lt], and a strict total order on distinct keys;
+   - on the sort sets it is calendar position (tables from the translator);
+   - as pinned it was neither (refutation theorems about [by_contextual_pinned]);
+   - ByDate still carries closure state: refuted on mixed key sets, proved on key sets inside one
+     layout (ties allowed) or without any layout. *)
 From Coq Require Import List Permutation Sorted Bool NArith ZArith Lia String.
 From RareV Require Import Base.Hex Gen.GenSortSets Model.Sort Proofs.SortGeneric Proofs.SortOrders.
 Import ListNotations.
 
-(* ---------------------------------------------------------------- small facts *)
-Lemma opt_nat_eqb_eq a b : opt_nat_eqb a b = true -> a = b.
-Proof.
-  destruct a, b; cbn; try discriminate; auto. intros H. apply Nat.eqb_eq in H. now subst.
-Qed.
-Lemma opt_Z_eqb_refl a : opt_Z_eqb a a = true.
-Proof. destruct a; cbn; auto. apply Z.eqb_refl. Qed.
+(* ---------------------------------------------------------------- lexicographic: rank, then a total order *)
+Section Lex.
+Variable rank : key -> Z * Z.
+Variable f : key -> key -> bool.
+Definition lex (a b : key) : bool :=
+  if peq (rank a) (rank b) then f a b else plt (rank a) (rank b).
+Hypothesis f_irrefl : forall a, f a a = false.
+Hypothesis f_trans : forall a b c, f a b = true -> f b c = true -> f a c = true.
+Hypothesis f_total : forall a b, kname a <> kname b -> f a b = true \/ f b a = true.
 
-Lemma nodupb_inj {A B} (eqb : B -> B -> bool) (g : A -> B) :
-  (forall v, eqb v v = true) ->
-  forall l, nodupb eqb (map g l) = true -> forall a b, In a l -> In b l -> g a = g b -> a = b.
-Proof.
-  intros Hr. induction l as [|x r IH]; intros Hn a b Ia Ib E; [contradiction|].
-  cbn in Hn. apply andb_true_iff in Hn as [Hn1 Hn2]. apply negb_true_iff in Hn1.
-  assert (Hx : forall c, In c r -> g x = g c -> False).
-  { intros c Ic Ec.
-    assert (existsb (eqb (g x)) (map g r) = true); [|congruence].
-    apply existsb_exists. exists (g c). split; [now apply in_map|]. rewrite Ec. apply Hr. }
-  destruct Ia as [->|Ia], Ib as [->|Ib]; auto.
-  - exfalso. eapply Hx; eauto.
-  - exfalso. eapply Hx; eauto.
-Qed.
+Lemma lex_irrefl a : lex a a = false.
+Proof. unfold lex. rewrite peq_refl. apply f_irrefl. Qed.
 
-Lemma infer_from_spec : forall sets k low i, infer_from k sets low = Some i ->
-  (k <= i)%nat /\ exists p, lookup (nth (i - k) sets []) low = Some p.
+Lemma lex_trans a b c : lex a b = true -> lex b c = true -> lex a c = true.
 Proof.
-  induction sets as [|s r IH]; intros k low i H; cbn in H; [discriminate|].
-  destruct (lookup s low) as [p|] eqn:E.
-  - inversion H; subst. split; [lia|]. rewrite Nat.sub_diag. cbn. eauto.
-  - apply IH in H as [Hle [p Hp]]. split; [lia|]. exists p.
-    replace (i - k)%nat with (S (i - S k)) by lia. exact Hp.
-Qed.
-Lemma infer_kpos a i : infer (kname a) = Some i -> exists p, kpos i a = Some p.
-Proof.
-  unfold infer, kpos, set_at. intros H. apply infer_from_spec in H as [_ [p Hp]].
-  rewrite Nat.sub_0_r in Hp. eauto.
+  unfold lex.
+  destruct (peq (rank a) (rank b)) eqn:Exy, (peq (rank b) (rank c)) eqn:Eyz; intros H1 H2.
+  - apply peq_eq in Exy, Eyz. rewrite Exy, Eyz, peq_refl. eapply f_trans; eauto.
+  - apply peq_eq in Exy. rewrite Exy, Eyz. exact H2.
+  - apply peq_eq in Eyz. rewrite <- Eyz, Exy. exact H1.
+  - pose proof (plt_trans _ _ _ H1 H2) as H3. rewrite (plt_not_peq _ _ H3). exact H3.
 Qed.
 
-(* ---------------------------------------------------------------- contextual: one sort set *)
+Lemma lex_total a b : kname a <> kname b -> lex a b = true \/ lex b a = true.
+Proof.
+  intros Hne. unfold lex. destruct (peq (rank a) (rank b)) eqn:E.
+  - assert (E' : peq (rank b) (rank a) = true) by (apply peq_eq; apply peq_eq in E; auto).
+    rewrite E'. now apply f_total.
+  - assert (E' : peq (rank b) (rank a) = false).
+    { destruct (peq (rank b) (rank a)) eqn:E2; [|reflexivity].
+      apply peq_eq in E2. rewrite E2, peq_refl in E. discriminate. }
+    rewrite E'. now apply plt_total.
+Qed.
+
+Lemma lex_strict l : NoDup (map kname l) -> strict_order_on lex l.
+Proof.
+  intros Hnd. apply strict_order_intro.
+  - apply lex_irrefl.
+  - apply lex_trans.
+  - intros a b Ia Ib Hab. apply lex_total. intros E. apply Hab.
+    exact (NoDup_map_inj kname l Hnd a b Ia Ib E).
+Qed.
+
+(* the rank decides whenever it differs *)
+Lemma lex_rank a b : plt (rank a) (rank b) = true -> lex a b = true /\ lex b a = false.
+Proof.
+  intros H. unfold lex. rewrite (plt_not_peq _ _ H). split; [exact H|].
+  destruct (peq (rank b) (rank a)) eqn:E.
+  - apply peq_eq in E. rewrite E, plt_irrefl in H. discriminate.
+  - now apply plt_asym.
+Qed.
+End Lex.
+
+(* ---------------------------------------------------------------- contextual (repaired) *)
+Lemma ctx_lt_lex : ctx_lt = lex ctx_rank by_name_smart.
+Proof. reflexivity. Qed.
+
+Lemma ctx_lt_irrefl a : ctx_lt a a = false.
+Proof. apply lex_irrefl, smart_irrefl. Qed.
+Lemma ctx_lt_trans a b c : ctx_lt a b = true -> ctx_lt b c = true -> ctx_lt a c = true.
+Proof. apply lex_trans, smart_trans. Qed.
+Lemma ctx_lt_total a b : kname a <> kname b -> ctx_lt a b = true \/ ctx_lt b a = true.
+Proof. apply lex_total, smart_total. Qed.
+
+(* irreflexive, asymmetric, transitive, total on every set of keys with distinct names *)
+Lemma ctx_lt_strict l : NoDup (map kname l) -> strict_order_on ctx_lt l.
+Proof. apply lex_strict; [apply smart_irrefl|apply smart_trans|apply smart_total]. Qed.
+
+(* the comparer built by ByContextualEx(ByNameSmart) IS that function: the answer does not depend
+   on the state it is handed and the state is returned unchanged *)
+Lemma by_contextual_pure st a b : by_contextual st a b = (ctx_lt a b, st).
+Proof.
+  unfold by_contextual, by_contextual_ex, ctx_lt, lift, peq, plt.
+  destruct (ctx_rank a) as [s0 v0], (ctx_rank b) as [s1 v1]. cbn [fst snd].
+  destruct (Z.eqb_spec s0 s1) as [->|Hs]; cbn.
+  - rewrite Z.ltb_irrefl. destruct (Z.eqb_spec v0 v1); cbn; reflexivity.
+  - rewrite orb_false_r. reflexivity.
+Qed.
+
+Lemma srun_contextual : forall qs st,
+  fst (srun by_contextual st qs) = map (fun q => ctx_lt (fst q) (snd q)) qs.
+Proof.
+  induction qs as [|[a b] qs IH]; intros st; cbn; [reflexivity|].
+  rewrite by_contextual_pure. specialize (IH st).
+  destruct (srun by_contextual st qs) as [xs st2]. cbn in *. now rewrite IH.
+Qed.
+
+Lemma sisort_contextual l : NoDup (map kname l) -> forall arr st, Permutation l arr ->
+  fst (sisort by_contextual st arr) = isort ctx_lt l.
+Proof.
+  intros Hnd arr st Hp.
+  destruct (sisort_pure by_contextual (fun _ => True) ctx_lt l) with (r := arr) (st := st) as [E _]; auto.
+  - intros s a b _ _ _. rewrite by_contextual_pure. auto.
+  - intros x Hx. eapply Permutation_in; [apply Permutation_sym; exact Hp|exact Hx].
+  - rewrite E. apply isort_perm_invariant; auto.
+    + apply (ctx_lt_strict l Hnd).
+    + now apply NoDup_map_inv in Hnd.
+Qed.
+
+(* ---------------------------------------------------------------- contextual as pinned: refutations *)
+Local Open Scope string_scope.
 Definition cs0 : cst * unit := (c_init, tt).
-Definition P_set (i : nat) (st : cst * unit) : Prop := st = cs0 \/ st = (mkc (Some i) false, tt).
-Definition P_none (st : cst * unit) : Prop := st = cs0 \/ st = (mkc None true, tt).
+Definition kb := mkkey (of_str "b") None FmtErr [].
+Definition kwed := mkkey (of_str "wed") None FmtErr [].
+Definition kthu := mkkey (of_str "thu") None FmtErr [].
 
-Lemma ctx_pure_set i l :
-  (forall a, In a l -> infer (kname a) = Some i) ->
-  forall st a b, P_set i st -> In a l -> In b l ->
-    fst (by_contextual st a b) = pos_lt i a b /\ P_set i (snd (by_contextual st a b)).
+Lemma contextual_pinned_refuted :
+  exists l l', NoDup (map kname l) /\ Permutation l l' /\
+    fst (sisort by_contextual_pinned cs0 l) <> fst (sisort by_contextual_pinned cs0 l').
 Proof.
-  intros Hl st a b Hp Ia Ib.
-  destruct (infer_kpos a i (Hl a Ia)) as [pa Ea]. destruct (infer_kpos b i (Hl b Ib)) as [pb Eb].
-  unfold by_contextual, by_contextual_ex, pos_lt.
-  destruct Hp as [-> | ->]; cbn -[kpos infer]; rewrite ?(Hl a Ia); cbn -[kpos infer];
-    rewrite Ea, Eb; cbn; split; auto; right; reflexivity.
-Qed.
-
-Lemma ctx_pure_none l :
-  (forall a, In a l -> infer (kname a) = None) ->
-  forall st a b, P_none st -> In a l -> In b l ->
-    fst (by_contextual st a b) = by_name_smart a b /\ P_none (snd (by_contextual st a b)).
-Proof.
-  intros Hl st a b Hp Ia Ib.
-  unfold by_contextual, by_contextual_ex, lift.
-  destruct Hp as [-> | ->]; cbn -[infer by_name_smart]; rewrite ?(Hl a Ia); cbn -[infer by_name_smart];
-    split; auto; right; reflexivity.
+  exists [kb; kwed; kthu], [kwed; kb; kthu]. split; [|split].
+  - repeat constructor; cbn; intuition discriminate.
+  - apply perm_swap.
+  - vm_compute. discriminate.
 Qed.
 
-Lemma ctx_dom_set_spec i l : ctx_dom_set i l = true ->
-  (forall a, In a l -> infer (kname a) = Some i) /\
-  (forall a b, In a l -> In b l -> kpos i a = kpos i b -> a = b).
-Proof.
-  unfold ctx_dom_set. intros H. apply andb_true_iff in H as [H1 H2]. split.
-  - intros a Ia. rewrite forallb_forall in H1. apply opt_nat_eqb_eq. now apply H1.
-  - apply (nodupb_inj opt_Z_eqb (kpos i) opt_Z_eqb_refl l H2).
-Qed.
-Lemma ctx_dom_none_spec l : ctx_dom_none l = true -> forall a, In a l -> infer (kname a) = None.
-Proof.
-  unfold ctx_dom_none. intros H a Ia. rewrite forallb_forall in H. apply opt_nat_eqb_eq. now apply H.
-Qed.
+Lemma contextual_pinned_history_dependent :
+  exists a b hist,
+    fst (by_contextual_pinned cs0 a b) <>
+    fst (by_contextual_pinned (snd (srun by_contextual_pinned cs0 hist)) a b).
+Proof. exists kwed, kthu, [(kb, kwed)]. vm_compute. discriminate. Qed.
 
-(* position order is a strict total order on a key set inside one sort set *)
-Lemma pos_lt_strict i l : ctx_dom_set i l = true -> strict_order_on (pos_lt i) l.
-Proof.
-  intros H. destruct (ctx_dom_set_spec i l H) as [Hm Hinj].
-  apply strict_order_intro; unfold pos_lt.
-  - intros a. destruct (kpos i a); auto. apply Z.ltb_irrefl.
-  - intros a b c. destruct (kpos i a), (kpos i b), (kpos i c); try discriminate.
-    rewrite !Z.ltb_lt. lia.
-  - intros a b Ia Ib Hab.
-    destruct (infer_kpos a i (Hm a Ia)) as [pa Ea]. destruct (infer_kpos b i (Hm b Ib)) as [pb Eb].
-    assert (pa <> pb) by (intros ->; apply Hab, Hinj; congruence).
-    rewrite Ea, Eb, !Z.ltb_lt. lia.
-Qed.
+Definition kmon := mkkey (of_str "mon") None FmtErr [].
+Definition kMonday := mkkey (of_str "Monday") None FmtErr [].
+Lemma contextual_pinned_tie :
+  fst (by_contextual_pinned cs0 kmon kMonday) = false /\ fst (by_contextual_pinned cs0 kMonday kmon) = false.
+Proof. vm_compute. auto. Qed.
+(* repaired: one of the two is first, always the same one *)
+Lemma contextual_tie_broken : ctx_lt kMonday kmon = true /\ ctx_lt kmon kMonday = false.
+Proof. vm_compute. auto. Qed.
+Local Close Scope string_scope.
 
 (* ---------------------------------------------------------------- date *)
-Definition P_layout (i : nat) (st : dst * (cst * unit)) : Prop :=
-  st = (d_init, cs0) \/ st = (mkd (Some i) false, cs0).
+Lemma date_lt_lex i : date_lt i = lex (date_rank i) ctx_lt.
+Proof. reflexivity. Qed.
+
+Lemma date_lt_strict i l : NoDup (map kname l) -> strict_order_on (date_lt i) l.
+Proof. apply lex_strict; [apply ctx_lt_irrefl|apply ctx_lt_trans|apply ctx_lt_total]. Qed.
+
+Definition ds0 : dst * unit := (d_init, tt).
+Definition P_layout (i : nat) (st : dst * unit) : Prop :=
+  st = ds0 \/ st = (mkd (Some i) false, tt).
 
 Lemma date_dom_layout_spec i l : date_dom_layout i l = true ->
-  (forall a, In a l -> kfmt a = FmtOk (Some i) /\ exists t, kdate i a = Some t) /\
-  (forall a b, In a l -> In b l -> kdate i a = kdate i b -> a = b).
+  forall a, In a l -> kfmt a = FmtOk (Some i) /\ exists t, kdate i a = Some t.
 Proof.
-  unfold date_dom_layout. intros H. apply andb_true_iff in H as [H1 H2]. split.
-  - intros a Ia. rewrite forallb_forall in H1. specialize (H1 a Ia).
-    apply andb_true_iff in H1 as [Hf Hd].
-    destruct (kfmt a) as [|[j|]]; try discriminate. apply Nat.eqb_eq in Hf. subst j.
-    split; [reflexivity|]. destruct (kdate i a); [eauto|discriminate].
-  - apply (nodupb_inj opt_Z_eqb (kdate i) opt_Z_eqb_refl l H2).
+  unfold date_dom_layout. intros H a Ia. rewrite forallb_forall in H. specialize (H a Ia).
+  apply andb_true_iff in H as [Hf Hd].
+  destruct (kfmt a) as [|[j|]]; try discriminate. apply Nat.eqb_eq in Hf. subst j.
+  split; [reflexivity|]. destruct (kdate i a); [eauto|discriminate].
+Qed.
+
+Lemma date_lt_instants i a b ta tb : kdate i a = Some ta -> kdate i b = Some tb ->
+  date_lt i a b = if (ta =? tb)%Z then ctx_lt a b else (ta <? tb)%Z.
+Proof.
+  intros Ea Eb. unfold date_lt, date_rank, peq, plt. rewrite Ea, Eb. cbn [fst snd].
+  destruct (Z.eqb_spec ta tb); cbn; reflexivity.
 Qed.
 
 Lemma date_pure_layout i l :
@@ -124,42 +176,26 @@ Lemma date_pure_layout i l :
 Proof.
   intros Hl st a b Hp Ia Ib.
   destruct (Hl a Ia) as [Fa [ta Ea]]. destruct (Hl b Ib) as [_ [tb Eb]].
-  unfold by_date_with_contextual, by_date, date_lt.
-  destruct Hp as [-> | ->]; cbn -[kdate]; rewrite ?Fa; cbn -[kdate]; rewrite Ea, Eb; cbn;
-    split; auto; right; reflexivity.
+  rewrite (date_lt_instants i a b ta tb Ea Eb).
+  unfold by_date_with_contextual, by_date.
+  destruct Hp as [-> | ->]; cbn -[kdate by_contextual]; rewrite ?Fa; cbn -[kdate by_contextual];
+    rewrite Ea, Eb; destruct (Z.eqb_spec ta tb); cbn -[by_contextual];
+    rewrite ?by_contextual_pure; cbn; split; auto; right; reflexivity.
 Qed.
 
-Lemma date_lt_strict i l : date_dom_layout i l = true -> strict_order_on (date_lt i) l.
-Proof.
-  intros H. destruct (date_dom_layout_spec i l H) as [Hm Hinj].
-  apply strict_order_intro; unfold date_lt.
-  - intros a. destruct (kdate i a); auto. apply Z.ltb_irrefl.
-  - intros a b c. destruct (kdate i a), (kdate i b), (kdate i c); try discriminate.
-    rewrite !Z.ltb_lt. lia.
-  - intros a b Ia Ib Hab.
-    destruct (Hm a Ia) as [_ [ta Ea]]. destruct (Hm b Ib) as [_ [tb Eb]].
-    assert (ta <> tb) by (intros ->; apply Hab, Hinj; congruence).
-    rewrite Ea, Eb, !Z.ltb_lt. lia.
-Qed.
+(* no key has a layout: every comparison goes to the (state-free) contextual comparer *)
+Definition P_nolayout (st : dst * unit) : Prop := fst st = d_init \/ fst st = mkd None true.
 
-(* no key has a layout: ByDate hands every comparison to its fallback *)
-Definition P_nolayout (Q : cst * unit -> Prop) (st : dst * (cst * unit)) : Prop :=
-  (fst st = d_init \/ fst st = mkd None true) /\ Q (snd st).
-
-Lemma date_pure_nolayout (Q : cst * unit -> Prop) (f : key -> key -> bool) l :
+Lemma date_pure_nolayout l :
   (forall a, In a l -> kfmt a = FmtErr) ->
-  (forall st a b, Q st -> In a l -> In b l ->
-     fst (by_contextual st a b) = f a b /\ Q (snd (by_contextual st a b))) ->
-  forall st a b, P_nolayout Q st -> In a l -> In b l ->
-    fst (by_date_with_contextual st a b) = f a b /\
-    P_nolayout Q (snd (by_date_with_contextual st a b)).
+  forall st a b, P_nolayout st -> In a l -> In b l ->
+    fst (by_date_with_contextual st a b) = ctx_lt a b /\
+    P_nolayout (snd (by_date_with_contextual st a b)).
 Proof.
-  intros Hl Hin [d s] a b [Hd Hq] Ia Ib. cbn [fst snd] in Hd, Hq.
-  destruct (Hin s a b Hq Ia Ib) as [E1 E2].
+  intros Hl [d s] a b Hd Ia Ib. unfold P_nolayout in *. cbn [fst] in Hd.
   unfold by_date_with_contextual, by_date.
   destruct Hd as [-> | ->]; cbn -[by_contextual]; rewrite ?(Hl a Ia); cbn -[by_contextual];
-    destruct (by_contextual s a b) as [r s']; cbn in *; (split; [assumption|]);
-    (split; [right; reflexivity|assumption]).
+    rewrite by_contextual_pure; cbn; auto.
 Qed.
 
 Lemma date_dom_none_spec l : date_dom_none l = true -> forall a, In a l -> kfmt a = FmtErr.
@@ -168,53 +204,47 @@ Proof.
   destruct (kfmt a); [reflexivity|discriminate].
 Qed.
 
-(* ---------------------------------------------------------------- packaged: ctx_pure / date_pure *)
-(* whenever ctx_pure says the key set is in a state-free domain, the closure decides like that
+(* whenever date_pure says the key set is in a state-free domain, the closure decides like that
    pure comparator from its initial state on, in every order of questions, and the pure
    comparator is a strict total order on the key set *)
-Lemma ctx_pure_sound l f : ctx_pure l = Some f -> NoDup (map kname l) ->
-  strict_order_on f l /\
-  exists P : cst * unit -> Prop, P cs0 /\
-    forall st a b, P st -> In a l -> In b l ->
-      fst (by_contextual st a b) = f a b /\ P (snd (by_contextual st a b)).
-Proof.
-  unfold ctx_pure. destruct l as [|k l'] eqn:El.
-  { intros H _. inversion H; subst. split.
-    - apply by_name_smart_strict. constructor.
-    - exists (fun _ => True). split; auto. intros ? ? ? _ []. }
-  rewrite <- El. intros H Hnd.
-  destruct (infer (kname k)) as [i|].
-  - destruct (ctx_dom_set i l) eqn:D; [|discriminate]. inversion H; subst f. split.
-    + now apply pos_lt_strict.
-    + exists (P_set i). split; [now left|].
-      apply ctx_pure_set. apply (ctx_dom_set_spec i l D).
-  - destruct (ctx_dom_none l) eqn:D; [|discriminate]. inversion H; subst f. split.
-    + now apply by_name_smart_strict.
-    + exists P_none. split; [now left|].
-      apply ctx_pure_none. now apply ctx_dom_none_spec.
-Qed.
-
 Lemma date_pure_sound l f : date_pure l = Some f -> NoDup (map kname l) ->
   strict_order_on f l /\
-  exists P : dst * (cst * unit) -> Prop, P (d_init, cs0) /\
+  exists P : dst * unit -> Prop, P ds0 /\
     forall st a b, P st -> In a l -> In b l ->
       fst (by_date_with_contextual st a b) = f a b /\ P (snd (by_date_with_contextual st a b)).
 Proof.
   unfold date_pure. destruct l as [|k l'] eqn:El.
   { intros H _. inversion H; subst. split.
-    - apply by_name_smart_strict. constructor.
+    - apply ctx_lt_strict. constructor.
     - exists (fun _ => True). split; auto. intros ? ? ? _ []. }
   rewrite <- El. intros H Hnd.
   destruct (kfmt k) as [|[i|]]; [| |discriminate].
-  - destruct (date_dom_none l) eqn:D; [|discriminate].
-    destruct (ctx_pure_sound l f H Hnd) as [Hs [Q [Hq0 Hq]]]. split; [exact Hs|].
-    exists (P_nolayout Q). split; [split; [now left|exact Hq0]|].
-    apply date_pure_nolayout; auto. now apply date_dom_none_spec.
+  - destruct (date_dom_none l) eqn:D; [|discriminate]. inversion H; subst f. split.
+    + now apply ctx_lt_strict.
+    + exists P_nolayout. split; [now left|].
+      apply date_pure_nolayout. now apply date_dom_none_spec.
   - destruct (date_dom_layout i l) eqn:D; [|discriminate]. inversion H; subst f. split.
     + now apply date_lt_strict.
     + exists (P_layout i). split; [now left|].
       apply date_pure_layout. apply (date_dom_layout_spec i l D).
 Qed.
+
+(* refutation (finding C13-stateful-date): 01/02/2022 and 12/31/2021 in layout 01/02/2006, with a
+   key that is not a date *)
+Local Open Scope string_scope.
+Definition kna := mkkey (of_str "n/a") None FmtErr [None].
+Definition kd1 := mkkey (of_str "01/02/2022") None (FmtOk (Some 0%nat)) [Some 1641081600000000000%Z].
+Definition kd2 := mkkey (of_str "12/31/2021") None (FmtOk (Some 0%nat)) [Some 1640908800000000000%Z].
+Lemma date_refuted :
+  exists l l', NoDup (map kname l) /\ Permutation l l' /\
+    fst (sisort by_date_with_contextual ds0 l) <> fst (sisort by_date_with_contextual ds0 l').
+Proof.
+  exists [kna; kd1; kd2], [kd1; kna; kd2]. split; [|split].
+  - repeat constructor; cbn; intuition discriminate.
+  - apply perm_swap.
+  - vm_compute. discriminate.
+Qed.
+Local Close Scope string_scope.
 
 (* ---------------------------------------------------------------- sorters on items (lookupSorter / BuildSorter) *)
 Lemma in_fst_map (its : list item) a : In a its -> In (fst a) (map fst its).
@@ -237,8 +267,12 @@ Qed.
 Lemma map_fst_names (its : list item) : map kname (map fst its) = map item_name its.
 Proof. rewrite map_map. reflexivity. Qed.
 
-(* The central fact about a sort mode on a key set in a state-free domain: a strict total order
-   that the sorter follows from its initial state on, in every order of questions. *)
+Lemma contextual_items_strict l : NoDup (map item_name l) -> strict_order_on (on_name ctx_lt) l.
+Proof. apply on_name_strict; [apply ctx_lt_irrefl|apply ctx_lt_trans|apply ctx_lt_total]. Qed.
+
+(* The central fact about a sort mode on a key set in a state-free domain (every key set for
+   text, numeric, contextual, value): a strict total order that the sorter follows from its
+   initial state on, in every order of questions. *)
 Lemma mode_pure_sound m its f : mode_pure m its = Some f -> NoDup (map item_name its) ->
   strict_order_on f its /\
   exists P : sstate -> Prop, P s_init /\
@@ -250,13 +284,9 @@ Proof.
     exists (fun _ => True). cbn. auto.
   - inversion H; subst f. split; [now apply numeric_items_strict|].
     exists (fun _ => True). cbn. auto.
-  - destruct (ctx_pure (map fst its)) as [g|] eqn:E; [|discriminate]. inversion H; subst f.
-    destruct (ctx_pure_sound _ g E) as [Hs [Q [Hq0 Hq]]]; [now rewrite map_fst_names|]. split.
-    + now apply on_name_strict_from.
-    + exists (fun st => Q (snd st)). split; [exact Hq0|].
-      intros [d c] a b Hp Ia Ib. cbn [snd] in Hp.
-      destruct (Hq c (fst a) (fst b) Hp (in_fst_map _ _ Ia) (in_fst_map _ _ Ib)) as [E1 E2].
-      cbn. destruct (by_contextual c (fst a) (fst b)) as [r c']. cbn in *. auto.
+  - inversion H; subst f. split; [now apply contextual_items_strict|].
+    exists (fun _ => True). split; [exact I|].
+    intros [d c] a b _ _ _. cbn -[by_contextual]. rewrite by_contextual_pure. cbn. auto.
   - destruct (date_pure (map fst its)) as [g|] eqn:E; [|discriminate]. inversion H; subst f.
     destruct (date_pure_sound _ g E) as [Hs [Q [Hq0 Hq]]]; [now rewrite map_fst_names|]. split.
     + now apply on_name_strict_from.
@@ -294,50 +324,6 @@ Proof.
   rewrite E. apply isort_perm_invariant; auto. now apply items_NoDup.
 Qed.
 
-(* ---------------------------------------------------------------- refutations (finding #19b) *)
-Local Open Scope string_scope.
-Definition kb := mkkey (of_str "b") None FmtErr [].
-Definition kwed := mkkey (of_str "wed") None FmtErr [].
-Definition kthu := mkkey (of_str "thu") None FmtErr [].
-
-Lemma contextual_refuted :
-  exists l l', NoDup (map kname l) /\ Permutation l l' /\
-    fst (sisort by_contextual cs0 l) <> fst (sisort by_contextual cs0 l').
-Proof.
-  exists [kb; kwed; kthu], [kwed; kb; kthu]. split; [|split].
-  - repeat constructor; cbn; intuition discriminate.
-  - apply perm_swap.
-  - vm_compute. discriminate.
-Qed.
-
-(* the same question is answered differently depending on what was asked before *)
-Lemma contextual_history_dependent :
-  exists a b hist,
-    fst (by_contextual cs0 a b) <> fst (by_contextual (snd (srun by_contextual cs0 hist)) a b).
-Proof. exists kwed, kthu, [(kb, kwed)]. vm_compute. discriminate. Qed.
-
-(* dates: 01/02/2022 and 12/31/2021 in layout 01/02/2006, with a key that is not a date *)
-Definition kna := mkkey (of_str "n/a") None FmtErr [None].
-Definition kd1 := mkkey (of_str "01/02/2022") None (FmtOk (Some 0%nat)) [Some 1641081600000000000%Z].
-Definition kd2 := mkkey (of_str "12/31/2021") None (FmtOk (Some 0%nat)) [Some 1640908800000000000%Z].
-Lemma date_refuted :
-  exists l l', NoDup (map kname l) /\ Permutation l l' /\
-    fst (sisort by_date_with_contextual (d_init, cs0) l) <>
-    fst (sisort by_date_with_contextual (d_init, cs0) l').
-Proof.
-  exists [kna; kd1; kd2], [kd1; kna; kd2]. split; [|split].
-  - repeat constructor; cbn; intuition discriminate.
-  - apply perm_swap.
-  - vm_compute. discriminate.
-Qed.
-
-(* two spellings of one position: neither is less (recorded as C13-contextual-ties) *)
-Definition kmon := mkkey (of_str "mon") None FmtErr [].
-Definition kMonday := mkkey (of_str "Monday") None FmtErr [].
-Lemma contextual_tie :
-  fst (by_contextual cs0 kmon kMonday) = false /\ fst (by_contextual cs0 kMonday kmon) = false.
-Proof. vm_compute. auto. Qed.
-
 (* ---------------------------------------------------------------- the calendar *)
 Lemma lookup_In (s : sortset) n p : lookup s n = Some p -> In (n, p) s.
 Proof.
@@ -373,24 +359,41 @@ Lemma tables_disjoint :
           set_months = true.
 Proof. vm_compute. reflexivity. Qed.
 
-Lemma ctx_fresh_in_set i a b pa pb :
-  infer (kname a) = Some i -> kpos i a = Some pa -> kpos i b = Some pb ->
-  fst (by_contextual cs0 a b) = (pa <? pb)%Z.
+Lemma rank_weekday a pa : lookup set_weekdays (lower (kname a)) = Some pa -> ctx_rank a = (0%Z, pa).
 Proof.
-  intros Hi Ha Hb. unfold by_contextual, by_contextual_ex, cs0, c_init.
-  cbn -[kpos infer]. rewrite Hi. cbn -[kpos infer]. rewrite Ha, Hb. reflexivity.
+  intros H. unfold ctx_rank, set_pos. rewrite sortSets_order. cbn [set_pos_from]. now rewrite H.
+Qed.
+Lemma rank_month a pa : lookup set_months (lower (kname a)) = Some pa -> ctx_rank a = (1%Z, pa).
+Proof.
+  intros H. unfold ctx_rank, set_pos. rewrite sortSets_order. cbn [set_pos_from].
+  pose proof tables_disjoint as D. rewrite forallb_forall in D.
+  specialize (D _ (lookup_In _ _ _ H)). cbn [fst] in D.
+  destruct (lookup set_weekdays (lower (kname a))); [discriminate|]. now rewrite H.
+Qed.
+Lemma rank_other a :
+  lookup set_weekdays (lower (kname a)) = None -> lookup set_months (lower (kname a)) = None ->
+  ctx_rank a = ((-1)%Z, 0%Z).
+Proof.
+  intros H1 H2. unfold ctx_rank, set_pos. rewrite sortSets_order. cbn [set_pos_from]. now rewrite H1, H2.
 Qed.
 
-(* weekday names and abbreviations, in any letter case: ordered by the day of the week *)
+Lemma ctx_lt_same_set s a b pa pb : ctx_rank a = (s, pa) -> ctx_rank b = (s, pb) ->
+  ctx_lt a b = if (pa =? pb)%Z then by_name_smart a b else (pa <? pb)%Z.
+Proof.
+  intros Ra Rb. unfold ctx_lt, peq, plt. rewrite Ra, Rb. cbn [fst snd].
+  rewrite Z.eqb_refl, Z.ltb_irrefl. cbn. destruct (pa =? pb)%Z; reflexivity.
+Qed.
+
+(* weekday names and abbreviations, in any letter case: ordered by the day of the week; several
+   spellings of one day by the numeric/text fallback *)
 Theorem contextual_weekdays a b pa pb :
   lookup set_weekdays (lower (kname a)) = Some pa ->
   lookup set_weekdays (lower (kname b)) = Some pb ->
-  fst (by_contextual cs0 a b) = (pa <? pb)%Z /\
+  ctx_lt a b = (if (pa =? pb)%Z then by_name_smart a b else (pa <? pb)%Z) /\
   (0 <= pa < 7)%Z /\ is_prefix (lower (kname a)) (nth (Z.to_nat pa) weekday_names []) = true.
 Proof.
   intros Ha Hb. split.
-  - apply (ctx_fresh_in_set 0); unfold infer, kpos, set_at; rewrite sortSets_order; cbn [nth infer_from]; auto.
-    now rewrite Ha.
+  - apply (ctx_lt_same_set 0%Z); now apply rank_weekday.
   - exact (calendar_entry _ _ _ _ weekdays_table_ok Ha).
 Qed.
 
@@ -398,13 +401,21 @@ Qed.
 Theorem contextual_months a b pa pb :
   lookup set_months (lower (kname a)) = Some pa ->
   lookup set_months (lower (kname b)) = Some pb ->
-  fst (by_contextual cs0 a b) = (pa <? pb)%Z /\
+  ctx_lt a b = (if (pa =? pb)%Z then by_name_smart a b else (pa <? pb)%Z) /\
   (0 <= pa < 12)%Z /\ is_prefix (lower (kname a)) (nth (Z.to_nat pa) month_names []) = true.
 Proof.
   intros Ha Hb. split.
-  - apply (ctx_fresh_in_set 1); unfold infer, kpos, set_at; rewrite sortSets_order; cbn [nth infer_from]; auto.
-    pose proof tables_disjoint as D. rewrite forallb_forall in D.
-    specialize (D _ (lookup_In _ _ _ Ha)). cbn [fst] in D.
-    destruct (lookup set_weekdays (lower (kname a))); [discriminate|]. now rewrite Ha.
+  - apply (ctx_lt_same_set 1%Z); now apply rank_month.
   - exact (calendar_entry _ _ _ _ months_table_ok Ha).
 Qed.
+
+(* keys outside every set first (among themselves: the numeric order), then weekdays, then months *)
+Theorem contextual_classes a b :
+  (fst (ctx_rank a) < fst (ctx_rank b))%Z -> ctx_lt a b = true /\ ctx_lt b a = false.
+Proof.
+  intros H. rewrite ctx_lt_lex. apply lex_rank.
+  unfold plt. apply orb_true_iff. left. now apply Z.ltb_lt.
+Qed.
+Theorem contextual_others a b : ctx_rank a = ((-1)%Z, 0%Z) -> ctx_rank b = ((-1)%Z, 0%Z) ->
+  ctx_lt a b = by_name_smart a b.
+Proof. intros Ra Rb. rewrite (ctx_lt_same_set _ a b 0%Z 0%Z Ra Rb). reflexivity. Qed.
